@@ -53,6 +53,7 @@ class PopenFuture(concurrent.futures.Future):
         self.start_time = None
         self.end_time = None
         self._exception = None
+        self._cancel_requested = False
 
     def start(self):
         """Starts the subprocess and immediately returns."""
@@ -61,6 +62,11 @@ class PopenFuture(concurrent.futures.Future):
             try:
                 self.start_time = time.time()
                 self.process = Popen(self.cmd, stdout=PIPE, stderr=PIPE, text=True)
+
+                # cancel() may have been called before the process was started,
+                # in which case it could not terminate anything
+                if self._cancel_requested:
+                    self.cancel()
 
                 # blocks until the process terminates
                 self.stdout, self.stderr = self.process.communicate(
@@ -89,6 +95,8 @@ class PopenFuture(concurrent.futures.Future):
 
     def cancel(self):
         """Attempts to terminate and then kill the process and its children."""
+        self._cancel_requested = True
+
         if not self.is_running():
             return
 
@@ -185,10 +193,12 @@ class PopenExecutor(concurrent.futures.Executor):
 
         Raises ShutdownError if the executor has been shutdown."""
 
-        if self._shutdown.is_set():
-            raise ShutdownError()
-
+        # check under the lock, so that a concurrent shutdown() either refuses this
+        # future or finds it among the futures to be cancelled
         with self._lock:
+            if self._shutdown.is_set():
+                raise ShutdownError()
+
             self._futures.append(future)
             future.start()
             return future
